@@ -43,7 +43,7 @@ CONFIG = dict(
         "three assumed specifications of std::time::Duration (checked_sub, partial_cmp, eq) in terms of an abstract nanosecond count",
     ],
     manifest=dict(
-        text="Proof. get_timeout_time and get_time_limit: loop-free Kani harnesses over the full symbolic domain (every Duration x every clock value; every non-negative timeval) against a 128-bit saturating specification. get_slices: the function text is extracted from /repo on every run and verified by Verus (unbounded loop, inductive invariant, decreases clause => termination) against sum/fit postconditions. A unit test samples a handful of durations; these obligations quantify over all of them.",
+        text="Proof. get_timeout_time and get_time_limit: loop-free Kani harnesses over the full symbolic domain (every Duration x every clock value; every non-negative timeval) against a 128-bit saturating specification. get_slices: the function text is extracted from /repo on every run and verified by Verus (unbounded loop, inductive invariant, decreases clause => termination) against sum/fit postconditions. A Kani companion unit runs the real get_slices (no extraction) over the full Duration domain for requests of at most three pieces (no panic or overflow, pieces fit, add up to the total) so that a change which leaves the Verus subset is still examined. A unit test samples a handful of durations; these obligations quantify over all of them.",
         note="Trusted: Kani/CBMC, Verus/Z3, three assumed specifications of std::time::Duration (cross-checked against the real std code by a Kani harness on every run), now() treated as an arbitrary u64, timeval fields non-negative, slice > 0 as precondition, 64-bit target, feature log off.",
         technique="contract-based deductive verification: Kani full-domain harness contracts + Verus pre/postconditions and loop invariant on the extracted function",
     ),
